@@ -39,6 +39,8 @@ def lock_jobs(rng, classes, profiles, runs_per_class, flavor="plain", ops_total=
                 "ops": max(50, total // threads), "seed": rng.randrange(1, 2**31), "profile": prof,
                 "chaos": rng.choice(chaos_choices), "hold": rng.choice(hold_choices), "hang_s": hang_s,
             }
+            if flavor == "plain" and i % 3 == 2:
+                args["preempt"] = 1  # SIGUSR1-based stalls at arbitrary instructions
             if extra:
                 args.update(extra)
             build = "lock_stress.%s%s" % (flavor, ("." + variant) if variant else "")
@@ -334,7 +336,8 @@ ID_RULE = ("one evaluation = one thread lifetime (claim an ID, run, exit) in wav
 def storm_jobs(tier, seed):
     caps = [2, 3, 8] if tier == "quick" else [2, 3, 5, 8, 16]
     # the ID table kept full and over-subscribed by 3N drivers, no injected delays (narrow races in the claim loop)
-    jobs = thr_jobs("churnstorm", caps, seed + 17, 3 if tier == "quick" else 16, 2 if tier == "quick" else 10, cost=8)
+    jobs = thr_jobs("churnstorm", caps, seed + 17, 3 if tier == "quick" else 16, 2 if tier == "quick" else 10, cost=8,
+                    extra=lambda rng, n, i: {"preempt": i % 2})
     # N threads released from a spin barrier onto one probe position
     jobs += thr_jobs("storm", caps, seed + 9, 2 if tier == "quick" else 12, 1 if tier == "quick" else 4, cost=4)
     return jobs
@@ -384,7 +387,7 @@ EPOCH_RULE = ("one evaluation = one ForwardGlobalEpoch, one guard or one list re
 def _epoch_extra(subs):
     def f(rng, n, i):
         return {"sub": subs[i % len(subs)], "pace": rng.choice([0, 2000, 2000, 20000, 50000]),
-                "fwdchaos": 1 if rng.random() < 0.2 else 0}
+                "fwdchaos": 1 if rng.random() < 0.25 else 0, "preempt": 1 if rng.random() < 0.5 else 0}
     return f
 
 
@@ -394,6 +397,9 @@ def spec_C04(prop, tier, seed, t0):
     jobs = thr_jobs("epoch", caps, seed, runs, scale, extra=_epoch_extra(["A"]))
     if tier == "quick":
         jobs += thr_jobs("epoch", [BIG_CAP], seed + 4, 3, 1, extra=_epoch_extra(["A"]))
+    # fresh managers first used by all workers at the same instant
+    jobs += thr_jobs("epochstart", [3, 8] if tier == "quick" else [2, 3, 5, 8, 16], seed + 6, 2 if tier == "quick" else 10,
+                     1 if tier == "quick" else 5, extra=lambda rng, n, i: {"preempt": i % 2})
     return _mk(prop, tier, seed, t0, jobs, {"guard_forward_pairs_checked": 50000, "guard_forward_pairs_on_reused_id": 5000,
                                            "thread_replacements": 60, "chaos_overlaps:43+44": 20},
                rule=EPOCH_RULE, assumptions=THR_ASSUME)
